@@ -1050,6 +1050,17 @@ func (r *rw) selector(x *ast.SelectorExpr, c ctxKind) ast.Expr {
 		// method value / call: the receiver is read (or its address taken implicitly)
 		if pc == ctxPrefix {
 			pc = ctxRead
+			// x.f.M() with a pointer-receiver method on an addressable struct value is
+			// (&x.f).M(): the address is taken, nothing is read. (Recording a read of x.f there
+			// produced a false race report: a struct shares its address with its first field,
+			// and that field was a sync.Map that other goroutines use atomically.)
+			if fn, ok := sel.Obj().(*types.Func); ok {
+				if sig, ok := fn.Type().(*types.Signature); ok && sig.Recv() != nil {
+					if _, ptrRecv := sig.Recv().Type().Underlying().(*types.Pointer); ptrRecv && xtv.Addressable() {
+						pc = ctxAddr
+					}
+				}
+			}
 		}
 		x.X = r.expr(x.X, pc)
 		return x
